@@ -214,3 +214,48 @@ Definition unsize_macro_ok (rules : nat) (matcher text : string) : bool :=
   Nat.eqb rules 1
   && String.eqb matcher "$ gc : expr => $ ty : ty"
   && String.eqb text "{ let gc = $ gc ; unsafe { $ crate :: __CoercePtrInternal :: __coerce_unchecked (gc , | p : * const _ | -> * const $ ty { p }) } }".
+
+(** ** Arguments of one call share one brand
+
+    A function that receives a context ([&Mutation<'x>], [&Finalization<'x>]) together with pointers,
+    root sets, caches or builders, or two pointers, must take them all at the SAME named lifetime:
+    were one of them elided or a second lifetime parameter, a caller could pass a pointer of arena A with
+    the context of arena B (the collector of B would then mark, barrier or resurrect A's object).  The
+    lifetimes at brand positions (table [branded], computed from the declarations) of the self type and
+    of every parameter type, after alias expansion; closures and trait objects bind their own. *)
+Definition lt_eqb (a b : lt) : bool :=
+  match a, b with
+  | LStatic, LStatic => true
+  | LNamed x, LNamed y => String.eqb x y
+  | _, _ => false   (* two elided lifetimes are two different lifetimes *)
+  end.
+
+Fixpoint brand_lts (br : list (string * nat)) (t : ty) : list lt :=
+  match t with
+  | TPath n lts args =>
+      flat_map (fun iq => if pair_mem n (fst iq) br then [snd iq] else []) (enum_from 0 lts)
+      ++ flat_map (brand_lts br) args
+  | TRef _ _ t' | TPtr _ t' | TSlice t' | TArray t' => brand_lts br t'
+  | TTuple ts => flat_map (brand_lts br) ts
+  | _ => []
+  end.
+
+Definition fn_arg_tys (f : fnsig) : list ty :=
+  match fs_recv f with
+  | RNone => fs_params f
+  | RTyped t => t :: fs_params f
+  | _ => fs_self_ty f :: fs_params f
+  end.
+
+Definition fn_brands (ds : list decl) (br : list (string * nat)) (f : fnsig) : list lt :=
+  flat_map (fun t => brand_lts br (expand EXPAND_FUEL ds t)) (fn_arg_tys f).
+
+Definition brands_agree (l : list lt) : bool :=
+  match l with
+  | [] => true
+  | [_] => true
+  | x :: r => forallb (lt_eqb x) r
+  end.
+
+Definition args_share_brand (ds : list decl) (br : list (string * nat)) (f : fnsig) : bool :=
+  brands_agree (fn_brands ds br f).
